@@ -94,6 +94,10 @@ def undeclared_keys(rng, cls, classes):
 
 
 # ---- history generation ----------------------------------------------------------------------------
+def gen_value(rng):
+    return rng.choice([0, 0, 1, -1, rng.randrange(-50, 1000), rng.randrange(-50, 1000), rng.randrange(-(1 << 70), 1 << 70)])
+
+
 def gen_pairs(rng, good, bad, allow_dup, str_only=False, pbad=0.12, nmax=5):
     n = rng.choice([0, 1, 1, 2, 2, 3, rng.randrange(0, nmax + 1)])
     ps, used = [], set()
@@ -107,7 +111,7 @@ def gen_pairs(rng, good, bad, allow_dup, str_only=False, pbad=0.12, nmax=5):
         if k in used and not allow_dup:
             continue
         used.add(k)
-        ps.append((k, rng.randrange(-50, 1000)))
+        ps.append((k, gen_value(rng)))
     return ps
 
 
@@ -133,7 +137,7 @@ def gen_history(rng, cls, classes):
     for _ in range(rng.randrange(4, 26)):
         r = rng.random()
         k = rng.choice(bad) if (bad and rng.random() < 0.2) else (rng.choice(good) if good else rng.choice(bad))
-        v = rng.randrange(-50, 1000)
+        v = gen_value(rng)
         if r < 0.17:
             ops.append(("setitem", k, v))
         elif r < 0.29:
@@ -313,7 +317,10 @@ class Run(object):
                         d2 = pickle.loads(pickle.dumps(d, o[1]))
                     if d2 is d or not equal_same_type(d2, d):
                         self.fail(i, "fixeddict-%s-not-faithful" % o[0], "%r of %r gave %r (%s)" % (o, d, d2, type(d2).__name__))
-                    d = d2
+                    if type(d2) is cls:
+                        d = d2
+                    else:           # not a fixeddict at all: keep the original, make the model comparison fail too
+                        tag, payload = "other", "wrong type %s" % type(d2).__name__
                 elif o[0] == "del":
                     del d[o[1]]
                 elif o[0] == "pop":
@@ -354,7 +361,10 @@ class Run(object):
                     ok, d2 = False, repr(e)
                 if not ok:
                     self.fail(len(self.h["ops"]), "fixeddict-pickle-not-faithful", "protocol %d: %r -> %r" % (p, d, d2))
-            r = d.__reduce__()
+            try:
+                r = d.__reduce__()
+            except Exception as e:  # noqa
+                r = repr(e)
             if not (isinstance(r, tuple) and len(r) == 3 and r[0] is cls and r[1] == () and type(r[2]) is dict and r[2] == dict(d)):
                 self.fail(len(self.h["ops"]), "fixeddict-reduce-shape", "__reduce__ gave %r" % (r,))
         return d
@@ -436,7 +446,9 @@ def shrink(cls, FDKE, h, key):
     r = Run(cls, FDKE, h)
     r.go()
     idx = [i for (i, k, _) in r.failures if k == key]
-    if idx and idx[0] >= 0:
+    if idx and idx[0] < 0:
+        best = {"init": h["init"], "ops": []}
+    if idx and 0 <= idx[0] < len(h["ops"]):
         best = {"init": h["init"], "ops": h["ops"][: idx[0] + 1]}
         cand = {"init": (None, []), "ops": [h["ops"][idx[0]]]}
         if fails(cand):
@@ -494,14 +506,17 @@ def run(ctx):
         for (_, key, desc) in r.failures:
             seen_fail[key] = seen_fail.get(key, 0) + 1
             if key not in reported:
-                small = shrink(cls, FDKE, h, key)
+                try:
+                    small = shrink(cls, FDKE, h, key)
+                except Exception:  # noqa  (shrinking is best effort)
+                    small = h
                 reported[key] = (cls, small, desc)
     for key, (cls, small, desc) in sorted(reported.items()):
         rr = Run(cls, FDKE, small)
         d = rr.go()
         ctx.violation(key, hist_to_json(cls, small),
-                      "%s (seen in %d of %d histories); minimal history ends with %r" % (desc, seen_fail[key], len(hists), d),
-                      observed=repr(d), expected="only keys of %s.entry_objs; rejected keys raise FixedDictKeyError" % cls.__name__)
+                      "%s (seen %d times in %d histories); minimal history given as input" % (desc, seen_fail[key], len(hists)),
+                      observed=repr(dict(d)) if d is not None else "constructor raised", expected="only keys of %s.entry_objs; rejected keys raise FixedDictKeyError" % cls.__name__)
     ctx.extra["oracle_failure_classes"] = seen_fail
 
     # ---- correspondence with the model ---------------------------------------------------------------------------
